@@ -62,11 +62,14 @@ extern std::vector<std::vector<T>> Transpose_Lists(const std::vector<T>& v1, con
 template <typename T>
 extern std::vector<T> Sub_List(const std::vector<T>& v, int i1, unsigned int i2)
 {
+	// Returns the elements v[i1],...,v[i2] (both included), with the indices clamped to the list.
 	if(i1 < 0)
 		i1 = 0;
-	if(i2 > v.size())
-		i2 = v.size();
-	std::vector<T> sub(&v[i1], &v[i2] + 1);
+	if(v.empty() || (unsigned int) i1 >= v.size() || (unsigned int) i1 > i2)
+		return std::vector<T>();
+	if(i2 >= v.size())
+		i2 = v.size() - 1;
+	std::vector<T> sub(v.begin() + i1, v.begin() + i2 + 1);
 	return sub;
 }
 
